@@ -107,6 +107,7 @@ type c14HOp struct {
 	Node   int      `json:"node"`
 	Kind   string   `json:"kind"` // set del get exists append remove getlist
 	Arg    string   `json:"arg,omitempty"`
+	TTL    string   `json:"ttl,omitempty"`
 	Call   int64    `json:"call"`
 	Ret    int64    `json:"ret"`
 	Err    string   `json:"err,omitempty"` // failed (not-found is NOT a failure)
@@ -468,6 +469,23 @@ type c14Step struct {
 	Node int    `json:"node"`
 	Kind string `json:"kind"`
 	Arg  string `json:"arg,omitempty"`
+	TTL  string `json:"ttl,omitempty"` // set only: "" (0 = default) | neg1ns | neg1s | past | tiny
+}
+
+// c14TTL turns a TTL class into the argument of Set. Negative values are what callers
+// get from time.Until(expiresAt) once the expiry has passed.
+func c14TTL(class string) time.Duration {
+	switch class {
+	case "neg1ns":
+		return -1
+	case "neg1s":
+		return -time.Second
+	case "past":
+		return time.Until(time.Now().Add(-time.Hour))
+	case "tiny":
+		return time.Nanosecond
+	}
+	return 0
 }
 
 func c14Strs(l []any) []string {
@@ -482,7 +500,7 @@ func c14Strs(l []any) []string {
 func (w *c14World) do(thread string, st c14Step) *c14HOp {
 	n := w.nodes[st.Node]
 	w.mu.Lock()
-	op := &c14HOp{ID: len(w.hist), Thread: thread, Node: st.Node, Kind: st.Kind, Arg: st.Arg, Phase: int(w.phase.Load())}
+	op := &c14HOp{ID: len(w.hist), Thread: thread, Node: st.Node, Kind: st.Kind, Arg: st.Arg, TTL: st.TTL, Phase: int(w.phase.Load())}
 	w.hist = append(w.hist, op)
 	w.cur[thread] = op
 	w.mu.Unlock()
@@ -497,7 +515,7 @@ func (w *c14World) do(thread string, st c14Step) *c14HOp {
 		}()
 		switch st.Kind {
 		case "set":
-			err = n.Set(w.key, st.Arg, 0)
+			err = n.Set(w.key, st.Arg, c14TTL(st.TTL))
 		case "del":
 			err = n.Delete(w.key)
 		case "get":
